@@ -142,6 +142,7 @@ FILES = [
     "api/src/handlers/version_api.rs",
     "api/src/foreign.rs",
     "api/src/owner.rs",
+    "api/src/types.rs",
 ]
 
 
@@ -291,6 +292,16 @@ class NodeTranslator(G.Translator):
             self.inline(ctx, ("Peer", items[i + 2].text), t.line)
             self.rec["peer-call"] = self.rec.get("peer-call", 0) + 1
             return 4
+        # ---- Type::func(.., &chain, ..): an associated function (no self) that is handed the chain (api/src/types.rs
+        # OutputPrintable::from_output, BlockPrintable::from_block, …: one more look-up per printed item)
+        if t.kind == "id" and is_p(at(items, i + 1), "::") and is_id(at(items, i + 2)) and is_grp(at(items, i + 3), "(") \
+                and not is_p(prev, "::") and (t.text, items[i + 2].text) in self.fns:
+            fd = self.fns[(t.text, items[i + 2].text)]
+            if not fd.has_self and "chain" in fd.params:
+                self.walk(items[i + 3].items, ctx)
+                self.inline(ctx, (t.text, items[i + 2].text), t.line)
+                self.rec["assoc-fn-with-chain"] = self.rec.get("assoc-fn-with-chain", 0) + 1
+                return 4
         # ---- h.NAME(args) on a handler object built in this function (foreign.rs / owner.rs)
         if t.kind == "id" and t.text in ctx.get("objs", {}) and not is_p(prev, ".") and is_p(at(items, i + 1), ".") \
                 and is_id(at(items, i + 2)) and is_grp(at(items, i + 3), "("):
